@@ -29,6 +29,7 @@ type Op struct {
 	At      int64  `json:"at,omitempty"`
 	Mt      int64  `json:"mt,omitempty"`
 	N       int    `json:"n,omitempty"`
+	Spell   int    `json:"spell,omitempty"` // how the paths are spelled towards the implementation (0 = clean absolute)
 	Members []Op   `json:"members,omitempty"`
 }
 
@@ -56,6 +57,12 @@ func flagStr(f int) string {
 }
 
 func (o Op) String() string {
+	if o.Spell != 0 {
+		c := o
+		c.Spell = 0
+		c.A, c.B = spell(o.A, o.Spell), spell(o.B, o.Spell)
+		return c.String() + fmt.Sprintf(" [spelling %d of %q]", o.Spell, o.A)
+	}
 	switch o.K {
 	case "mkdir", "mkdirall":
 		return fmt.Sprintf("%s(%q,%o)", o.K, o.A, o.Perm)
@@ -105,6 +112,9 @@ func failOut(phase string, err error) Outcome {
 func execOp(rig *Rig, o Op) Outcome {
 	stepBegin()
 	f := rig.FS
+	if o.Spell != 0 {
+		o.A, o.B = spell(o.A, o.Spell), spell(o.B, o.Spell)
+	}
 	switch o.K {
 	case "mkdir":
 		if err := f.Mkdir(o.A, os.FileMode(o.Perm)); err != nil {
